@@ -162,6 +162,14 @@ def slice_(t, start, stop):
     return Tab(out, t.cols, True)
 
 
+def reverse(t):
+    """Rows in the opposite order (an unordered table stays unordered)."""
+    if not t.ordered:
+        return t
+    n = t.count()
+    return Tab([Slot(s.p, n - 1 - s.pos, s.v) for s in t.slots], t.cols, True)
+
+
 def chain(a, b):
     if a.ordered and b.ordered:
         na = a.count()
